@@ -512,11 +512,64 @@ fn main() {
     repeat_sweep::<HRc>("Rc", &mut st);
     repeat_sweep::<Unique>("Unique", &mut st);
 
+    // repeat with a count whose product with the length overflows usize: std's `[u8]::repeat` / `str::repeat` panic
+    // ("capacity overflow"); in particular counts whose WRAPPED product is small (<= 23, the inline fast path) must not
+    // be mistaken for small results. Run last: a wrapping implementation smashes the stack (the crash is localised by
+    // VERIF_TRACE).
+    fn repeat_overflow<B: Backend>(bk: &str, st: &mut Stats) {
+        for len in 1..=24usize {
+            let src = piece(len, 2);
+            let mut counts: Vec<usize> = vec![usize::MAX, usize::MAX / len + 1, (1usize << 63) + 1, usize::MAX / 2 + 2];
+            // counts n with len * n overflowing and (len * n) mod 2^64 in 0..=23
+            for target in [0usize, 1, len.min(23), 22, 23] {
+                // solve len * n ≡ target (mod 2^64) when possible (odd len: multiply by the inverse)
+                if len % 2 == 1 {
+                    let mut inv: usize = 1;
+                    for _ in 0..6 {
+                        inv = inv.wrapping_mul(2usize.wrapping_sub(len.wrapping_mul(inv)));
+                    }
+                    let n = target.wrapping_mul(inv);
+                    if len.checked_mul(n).is_none() {
+                        counts.push(n);
+                    }
+                } else if len.is_power_of_two() && target % len == 0 {
+                    let n = (usize::MAX / len + 1).wrapping_add(target / len);
+                    if len.checked_mul(n).is_none() {
+                        counts.push(n);
+                    }
+                }
+            }
+            counts.sort_unstable();
+            counts.dedup();
+            for (rname, h) in [("owned", HipByt::<B>::from(&src[..])), ("borrowed", HipByt::<B>::borrowed(Box::leak(src.clone().into_boxed_slice())))] {
+                for &n in &counts {
+                    if len.checked_mul(n).is_some() {
+                        continue;
+                    }
+                    st.evaluations += 1;
+                    let input = format!("HipByt<{bk}>::repeat repr={rname} len={len} n={n} (product overflows usize, wraps to {})", len.wrapping_mul(n));
+                    if let Ok(t) = std::env::var("VERIF_TRACE") {
+                        let _ = std::fs::write(&t, format!("{input}\n"));
+                    }
+                    st.distinct.insert(format!("repeat-overflow {bk} {rname} {len} {n}"));
+                    st.hit(format!("repeat overflow wraps-to-{}", if len.wrapping_mul(n) <= 23 { "inline-size" } else { "large" }));
+                    let o = observe_byt::<B>(|| h.repeat(n).into_owned());
+                    if !matches!(o, Obs::Panic) {
+                        st.disagree("impl-vs-oracle", input, "panic (capacity overflow), as <[u8]>::repeat".to_string(), obs_line(&o));
+                    }
+                }
+            }
+        }
+    }
+    repeat_overflow::<Arc>("Arc", &mut st);
+    repeat_overflow::<HRc>("Rc", &mut st);
+    repeat_overflow::<Unique>("Unique", &mut st);
+
     let checks = lean.as_mut().map(|l| l.ask("checks").unwrap_or_default()).unwrap_or_default();
     let out = serde_json::json!({
         "evaluations": st.evaluations,
         "distinct_nontrivial": st.distinct.len(),
-        "rule": "all piece lists of 0-3 pieces over lengths {0,1,11,12,23,24} (thorough: +2,22,30) plus seeded random lists of 4-6 pieces of length 0-30, each with second-pass variants {same, different content, last longer, last shorter, fewer items, all empty, bytes moved, swapped, one more item, one more empty item, no item} x separators of 0,1,3 bytes x {concat, join} x {HipByt, HipStr} x misbehaviour flavour {Clone yields other pieces, AsRef flips between calls} x backends; slice forms on consistent scripts; repeat for every (len, n) in 0..=30 x 0..=30 x {owned, borrowed} x backends; distinct = distinct (api, flavour, pass1, pass2, sep)",
+        "rule": "all piece lists of 0-3 pieces over lengths {0,1,11,12,23,24} (thorough: +2,22,30) plus seeded random lists of 4-6 pieces of length 0-30, each with second-pass variants {same, different content, last longer, last shorter, fewer items, all empty, bytes moved, swapped, one more item, one more empty item, no item} x separators of 0,1,3 bytes x {concat, join} x {HipByt, HipStr} x misbehaviour flavour {Clone yields other pieces, AsRef flips between calls} x backends; slice forms on consistent scripts; repeat for every (len, n) in 0..=30 x 0..=30 x {owned, borrowed} x backends, and counts whose product with the length overflows usize (incl. products wrapping into 0..=23) must panic like std; distinct = distinct (api, flavour, pass1, pass2, sep)",
         "exhaustive": false,
         "distribution": st.dist,
         "samples": st.samples,
